@@ -22,6 +22,7 @@ import hashlib
 import json
 import os
 import random
+import shutil
 
 import vlib
 from vlib import Ctx, run_tlc, build_harness, run_bin, parse_jsonl, SPEC
@@ -262,16 +263,13 @@ def run(tier, replay):
     thorough = tier == "thorough"
     bindir = build_harness(["pool"])
     pool_bin = os.path.join(bindir, "pool")
-    work = vlib.workdir("C08")
+    work = os.path.join(vlib.workdir("C08"), "run-%d" % os.getpid())   # private: tiers may run side by side
+    os.makedirs(work, exist_ok=True)
     rng = random.Random(ctx.seed)
     try:
         return _run(ctx, thorough, pool_bin, work, rng, replay)
     finally:
-        for f in os.listdir(work):
-            try:
-                os.remove(os.path.join(work, f))
-            except OSError:
-                pass
+        shutil.rmtree(work, ignore_errors=True)
 
 
 def _run(ctx, thorough, pool_bin, work, rng, replay):
@@ -285,7 +283,7 @@ def _run(ctx, thorough, pool_bin, work, rng, replay):
         mcs = [("MC_ThreadPool_quick_n2t3.cfg", 3), ("MC_ThreadPool_quick_n2.cfg", 2), ("MC_ThreadPool_quick_n1.cfg", 1)]
     # the exhaustive runs go on in the background while the harness phases run (they need little CPU)
     bg = concurrent.futures.ThreadPoolExecutor(max_workers=4)
-    mc_futs = {cfg: bg.submit(lambda cfg=cfg, w=w: run_tlc("MC_ThreadPool.tla", cfg, D, workers=w, coverage=True, timeout=3000,
+    mc_futs = {cfg: bg.submit(lambda cfg=cfg, w=w: run_tlc("MC_ThreadPool.tla", cfg, D, workers=w, coverage=True, timeout=5400,
                                                            heap="8g", work_id="c08-" + cfg[:-4])) for cfg, w in mcs}
     jobs = []
     for cfg, dev, kind, name in SENSITIVITY:
